@@ -176,3 +176,10 @@ def r8(rr, repo):
 def r9(rr, repo):
     from .c02 import r3 as c02r3
     c02r3(rr, repo)
+
+
+@rule('C07.R10', "the lock of a balanced join goes with the half set it belongs to: the other workers come back into the poller exactly where that half set is dropped. Released while the half set is kept "
+                 "(a call that times out), another worker's newer set is started next to the stale half; what is handed out then mixes ids, or raises 'duplicate topic' (shares C06.R18)")
+def r10(rr, repo):
+    from .c06 import r18 as c06r18
+    c06r18(rr, repo)
